@@ -103,8 +103,7 @@ def rule_strategy_order(ctx):
                       "%s is not conditioned on the failure of %s" % (order[i], order[i - 1]))
 
 
-def rule_mem_file_siblings(ctx):
-    R = "C14/mem-file-siblings"
+def rule_mem_file_siblings(ctx, R="C14/mem-file-siblings"):
     b = ctx.body(R, MR + "::ModuleReader::read_segment")
     if b is not None:
         o = Origin(b)
